@@ -83,6 +83,34 @@ KERNELS = [
       rules=[(r"std::equal\(", "K_std_equal(", 1)], cxx="VectorWithOffset<T>::operator=="),
 ]
 
+SPTR_RESET = (r"self->allocated_memory_sptr = nullptr;", "K_sptr_reset(&self->allocated_memory_sptr);", 1)
+KERNELS += [
+    K("K_vwo_init0", CLS + r"init\(\)", "void K_vwo_init0(struct VWO* self)", cxx="VectorWithOffset<T>::init()",
+      rules=[(r"allocated_memory_sptr = nullptr;", "allocated_memory_sptr = NULL /* fresh object: nothing to release */;", 1)]),
+    K("K_vwo__destruct_and_deallocate", CLS + r"_destruct_and_deallocate\(\)", "void K_vwo__destruct_and_deallocate(struct VWO* self)",
+      rules=[(r"this->allocated_memory_sptr = nullptr;", "K_sptr_reset(&self->allocated_memory_sptr);", 1)],
+      cxx="VectorWithOffset<T>::_destruct_and_deallocate"),
+    K("K_vwo_recycle", CLS + r"recycle\(\)", "void K_vwo_recycle(struct VWO* self)", cxx="VectorWithOffset<T>::recycle",
+      rules=[(r"this->init\(\);", "K_vwo_init0(self);", 1)]),
+    K("K_vwo_reserve", CLS + r"reserve\(const int new_capacity_min_index, const int new_capacity_max_index\)",
+      "void K_vwo_reserve(struct VWO* self, const int new_capacity_min_index, const int new_capacity_max_index)",
+      rules=[(r"shared_ptr<T\[\]> (\w+)\(new T\[(\w+)\]\);", r"T* \1 = K_new_T(\2);", 1),
+             (r"std::copy\(", "K_std_copy(", 1), (r"\.get\(\)", "", 2), (r"std::move\((\w+)\)", r"\1", 1),
+             (r"\b0U\b", "0U", 1)],
+      cxx="VectorWithOffset<T>::reserve(int,int)"),
+    K("K_vwo_resize", CLS + r"resize\(const int min_index, const int max_index\)",
+      "void K_vwo_resize(struct VWO* self, const int min_index, const int max_index)", cxx="VectorWithOffset<T>::resize(int,int)"),
+    K("K_vwo_grow", CLS + r"grow\(const int min_index, const int max_index\)",
+      "void K_vwo_grow(struct VWO* self, const int min_index, const int max_index)", cxx="VectorWithOffset<T>::grow(int,int)"),
+    K("K_vwo_assign", CLS + r"operator=\(const VectorWithOffset& il\)", "struct VWO* K_vwo_assign(struct VWO* self, const struct VWO* il)",
+      rules=[(r"this == &il", "self == il", 1), (r"std::copy\(", "K_std_copy(", 1)], cxx="VectorWithOffset<T>::operator="),
+    K("K_arr1_resize", r"Array<1, elemT>::resize\(const int min_index, const int max_index\)",
+      "void K_arr1_resize(struct VWO* self, const int min_index, const int max_index)", file="src/include/stir/Array.inl",
+      rules=[(r"this->num\[([^\]]+)\]", r"VWO_AT(self, \1)", 3), (r"assign\((VWO_AT\(self, i\)), 0\);", r"\1 = 0;", 3),
+             (r"base_type::resize\(", "K_vwo_resize(self, ", 1), (r"\bsize_type\b", "size_t", 1)],
+      loops=3, cxx="Array<1,elemT>::resize(int,int)"),
+]
+
 ERR = (r'\berror\("[^"]*"\);', "K_THROW(self);", 1)
 for nm, op in (("plus", r"\+="), ("minus", "-="), ("mult", r"\*="), ("div", "/=")):
     KERNELS.append(K("K_vwo_%s_assign" % nm, CLS + r"operator%s\(const VectorWithOffset& v\)" % op,
@@ -123,9 +151,13 @@ ENFORCE = [
     ("K_std_copy", [], True), ("K_std_fill", [], True), ("K_std_equal", [], True),
     ("K_vwo_plus_assign", [], True), ("K_vwo_minus_assign", [], True), ("K_vwo_mult_assign", [], True),
     ("K_vwo_div_assign", [], True),
+    ("K_vwo_init0", [], False), ("K_vwo__destruct_and_deallocate", [], False), ("K_vwo_recycle", [], False),
+    ("K_vwo_reserve", ["K_std_copy"], False), ("K_vwo_resize", ["K_std_copy"], False), ("K_vwo_grow", ["K_std_copy"], False),
+    ("K_vwo_assign", ["K_std_copy"], False), ("K_arr1_resize", ["K_std_copy"], True),
 ]
 
 
+TIER_B = ("K_vwo_reserve", "K_vwo_resize", "K_vwo_grow", "K_vwo_assign", "K_arr1_resize")
 CHECKS = ["--bounds-check", "--pointer-check", "--signed-overflow-check", "--div-by-zero-check"]
 # no --pointer-overflow-check: `num = begin - start` is deliberately outside its block (the real code does this);
 # element arithmetic (+ - * /) overflow and division by zero are the caller's concern, so the arithmetic-operator jobs
@@ -139,21 +171,31 @@ def jobs(tier, gen_dir):
         for kern, repl, lc in ENFORCE:
             tt = t
             checks = list(CHECKS)
+            shards = 1
+            if kern in TIER_B:
+                # 1-byte elements: the container logic is independent of sizeof(T) (scaling is done by the compiler);
+                # keeps the offset arithmetic in the contracts division-free
+                tt = "unsigned char"
+                shards = int(os.environ.get("C11_SHARDS", "12"))
+                if t != types[0]:
+                    continue
             if kern in ("K_vwo_mult_assign", "K_vwo_div_assign"):
                 tt = "unsigned char"  # 8-bit multiplier/divider: the container logic does not depend on the element width
                 if t != types[0]:
                     continue
-            elif kern.endswith("_assign") and t != "unsigned":
+            elif kern.endswith("_assign") and kern != "K_vwo_assign" and t != "unsigned":
                 continue  # signed/float element arithmetic is not the container's obligation
             if kern == "K_vwo_div_assign":
                 checks.remove("--div-by-zero-check")
             defs = {"T_ELEM": tt}
+            if kern in TIER_B and os.environ.get("C11_MAXLEN"):
+                defs["VWO_MAXLEN"] = os.environ["C11_MAXLEN"]
             if tt == "float":
                 defs["T_IS_FLOAT"] = None
             out.append(Job("c11/%s/%s" % (tt.replace(" ", "_"), kern), HARNESS, "h_" + kern, enforce=kern, replace=repl,
                            loop_contracts=lc, defines=defs, flags=checks, timeout=300, params={"T": tt}, kernels=[kern],
-                           min_obligations=3, no_base_flags=True, replay="vwo"))
-            if kern.endswith("_assign"):
+                           min_obligations=3, no_base_flags=True, replay="vwo", shards=shards))
+            if kern.endswith("_assign") and kern != "K_vwo_assign":
                 d2 = dict(defs)
                 d2["SELF_EMPTY"] = None
                 out.append(Job("c11/%s/%s/self_empty" % (tt.replace(" ", "_"), kern), HARNESS, "h_" + kern, enforce=kern,
